@@ -44,12 +44,17 @@ Emit(p, it) == [p EXCEPT !.out = Append(@, it)]
 (* pbuf is the raw sequence of parameter characters (digits, ';', ':').      *)
 (* Split at ';' into parameters, each split at ':' into sub-parameters; an   *)
 (* empty value is 0.                                                         *)
-(* Values of 10^9 and more are outside the prescribed range: Huge.           *)
-Huge == -2
-RECURSIVE NumOf(_, _)
-NumOf(s, acc) == IF s = <<>> THEN acc
-                 ELSE IF acc >= 100000000 THEN Huge
-                 ELSE NumOf(Tail(s), acc * 10 + (Head(s) - 48))
+(* A value is its sequence of decimal digits without leading zeros (<<0>> for *)
+(* zero or an empty value): TLC integers have 32 bits, digit sequences are     *)
+(* exact whatever the size.  Values of 19 digits and more (beyond a 64-bit     *)
+(* integer) are outside the prescribed range: Huge, which matches anything.    *)
+Huge == <<-2>>
+RECURSIVE Strip0(_)
+Strip0(s) == IF s # <<>> /\ Head(s) = 48 THEN Strip0(Tail(s)) ELSE s
+NumOf(s, acc) == LET d == Strip0(s) IN
+                 IF d = <<>> THEN <<0>>
+                 ELSE IF Len(d) > 18 THEN Huge
+                 ELSE [i \in 1..Len(d) |-> d[i] - 48]
 
 RECURSIVE SplitAt(_, _, _, _)
 SplitAt(s, sep, cur, acc) ==
@@ -273,11 +278,13 @@ Explode(items, acc) ==
                IF it.t = "print" THEN acc \o [k \in 1..Len(it.s) |-> PrintI(it.s[k])] ELSE Append(acc, it))
 
 (* The first 16 parameters are prescribed; more than 16 may be dropped.      *)
+ValEq(got, want) == want = Huge \/ got = want
+SubsEq(got, want) == Len(got) = Len(want) /\ \A j \in 1..Len(want) : ValEq(got[j], want[j])
 CsiEq(got, want) ==
   /\ got.t = "csi" /\ got.i = want.i /\ got.f = want.f
-  /\ IF Len(want.p) <= 16 THEN got.p = want.p
+  /\ IF Len(want.p) <= 16 THEN Len(got.p) = Len(want.p) /\ \A k \in 1..Len(want.p) : SubsEq(got.p[k], want.p[k])
      ELSE /\ Len(got.p) >= 16 /\ Len(got.p) <= Len(want.p)
-          /\ \A k \in 1..Len(got.p) : got.p[k] = want.p[k]
+          /\ \A k \in 1..Len(got.p) : SubsEq(got.p[k], want.p[k])
 
 HasHuge(ps) == \E k \in 1..Len(ps) : ps[k] = Huge
 DcsEq(got, want) ==
